@@ -124,6 +124,7 @@ Definition run (args : list bytes) : bytes :=
                                | _, _, _, _ => err "hex" end
             | _ => err "args" end
           else (* bin | built | rej...: the bytes of an encoding *)
-            match rest with [hx] => match hexarg hx with Some input => run_bin e input | None => err "hex" end | _ => err "args" end
+            (* a "built" case may carry a further word: the harness's fingerprint of the in-memory value the bytes were serialized from *)
+            match rest with [hx] | [hx; _] => match hexarg hx with Some input => run_bin e input | None => err "hex" end | _ => err "args" end
       end
   | _ => err "args" end.
